@@ -117,8 +117,7 @@ Proof. destruct a; [discriminate|]. intros b Hh. exact Hh. Qed.
 
 Lemma guard_digit_ident : forall t, forallb ident_char t = true -> forallb ident_char (guard_digit t) = true.
 Proof.
-  intros t Ht. destruct t as [|c t]; [reflexivity|]. unfold guard_digit.
-  destruct (gen_digit_guard && is_digit c); [|exact Ht].
+  intros t Ht. unfold guard_digit. destruct (needs_guard t); [|exact Ht].
   rewrite forallb_app, Ht, andb_true_r.
   pose proof digit_rule_ok_true as D. unfold digit_rule_ok in D.
   apply andb_true_iff in D as [_ D]. exact D.
@@ -126,19 +125,19 @@ Qed.
 
 Lemma guard_digit_head : forall t, t <> [] -> head_ok (guard_digit t) = true.
 Proof.
-  intros t Hne. destruct t as [|c t]; [congruence|]. unfold guard_digit.
+  intros t Hne. unfold guard_digit.
   pose proof digit_rule_ok_true as D. unfold digit_rule_ok in D.
-  apply andb_true_iff in D as [D _]. apply andb_true_iff in D as [G P]. rewrite G. cbn [andb].
-  destruct (is_digit c) eqn:E.
+  apply andb_true_iff in D as [D _]. apply andb_true_iff in D as [G P].
+  destruct (needs_guard t) eqn:E.
   - apply head_ok_app. exact P.
-  - cbn [head_ok]. rewrite E. reflexivity.
+  - destruct t as [|c t]; [congruence|]. cbn [needs_guard] in E. rewrite G in E. cbn [andb] in E.
+    apply orb_false_iff in E as [E _]. cbn [head_ok]. rewrite E. reflexivity.
 Qed.
 
 Lemma guard_digit_nil : forall t, guard_digit t = [] -> t = [].
 Proof.
-  intros t Hg. destruct t as [|c t]; [reflexivity|]. unfold guard_digit in Hg.
-  destruct (gen_digit_guard && is_digit c); [|discriminate].
-  destruct gen_digit_prefix; discriminate.
+  intros t Hg. unfold guard_digit in Hg. destruct (needs_guard t) eqn:E; [|exact Hg].
+  destruct t as [|c t]; [reflexivity|]. destruct gen_digit_prefix; discriminate.
 Qed.
 
 (* the default text: an identifier; when it is empty the separator before the hash must start the name *)
@@ -167,6 +166,63 @@ Proof.
     + apply head_ok_app. exact D.
   - rewrite <- E. apply head_ok_app, guard_digit_head. intro Hn. rewrite Hn in E.
     cbn in E. discriminate.
+Qed.
+
+(* ------------------------------------------------------------------ names reserved by SQLite ("sqlite_...") *)
+Lemma nocase_ext_all : forall (u x : N) p t r,
+  forallb (fun c => negb (fold_ascii c =? fold_ascii u)) p = true ->
+  starts_with_nocase p t = false -> starts_with_nocase (p ++ [x]) (t ++ u :: r) = false.
+Proof.
+  intros u x. induction p as [|c p IH]; intros t r Hall Hs.
+  - destruct t; discriminate Hs.
+  - cbn [forallb] in Hall. apply andb_true_iff in Hall as [Hc Hall]. apply negb_true_iff in Hc.
+    destruct t as [|d t]; cbn [app starts_with_nocase].
+    + rewrite Hc. reflexivity.
+    + cbn [starts_with_nocase] in Hs. destruct (fold_ascii c =? fold_ascii d); [|reflexivity].
+      cbn [andb] in *. apply IH; assumption.
+Qed.
+
+Lemma nocase_ext : forall (u x : N) c p t r, t <> [] ->
+  forallb (fun c => negb (fold_ascii c =? fold_ascii u)) p = true ->
+  starts_with_nocase (c :: p) t = false -> starts_with_nocase ((c :: p) ++ [x]) (t ++ u :: r) = false.
+Proof.
+  intros u x c p t r Hne Hall Hs. destruct t as [|d t]; [congruence|].
+  cbn [app starts_with_nocase] in *. destruct (fold_ascii c =? fold_ascii d); [|reflexivity].
+  cbn [andb] in *. apply nocase_ext_all; assumption.
+Qed.
+
+Lemma nocase_head : forall c p y s, (fold_ascii c =? fold_ascii y) = false -> starts_with_nocase (c :: p) (y :: s) = false.
+Proof. intros c p y s E. cbn [starts_with_nocase]. rewrite E. reflexivity. Qed.
+
+(* the proposed repair is in the tree: the guard fires on sanitised texts that begin with "sqlite" *)
+Definition reserved_rule_present : bool := gen_reserved_guard && str_eqb gen_reserved_word sqlite_word.
+
+(* heads of the texts a prefix can start with never fold to 's' *)
+Definition heads_not_s : bool :=
+  match gen_digit_prefix with c :: _ => negb (fold_ascii 115 =? fold_ascii c) | [] => false end &&
+  match gen_default ++ gen_hash_sep with c :: _ => negb (fold_ascii 115 =? fold_ascii c) | [] => false end &&
+  str_eqb gen_hash_sep [underscore].
+Lemma heads_not_s_true : heads_not_s = true.
+Proof. vm_compute. reflexivity. Qed.
+
+Lemma sanitize_not_reserved : forall id rest, reserved_rule_present = true ->
+  reserved_name (sanitize id ++ gen_hash_sep ++ rest) = false.
+Proof.
+  intros id rest R. unfold reserved_rule_present in R. apply andb_true_iff in R as [G W]. apply str_eqb_eq in W.
+  pose proof heads_not_s_true as Hh. unfold heads_not_s in Hh. apply andb_true_iff in Hh as [Hh Hsep].
+  apply andb_true_iff in Hh as [Hp Hd]. apply str_eqb_eq in Hsep.
+  unfold reserved_name, sanitize, or_default.
+  destruct (guard_digit (sub_chars id)) eqn:E.
+  - rewrite app_assoc. destruct (gen_default ++ gen_hash_sep) as [|c l]; [discriminate Hd|].
+    apply negb_true_iff in Hd. cbn [app]. apply nocase_head. exact Hd.
+  - rewrite <- E. clear E. unfold guard_digit. destruct (needs_guard (sub_chars id)) eqn:N.
+    + destruct gen_digit_prefix as [|c l]; [discriminate Hp|]. apply negb_true_iff in Hp.
+      cbn [app]. apply nocase_head. exact Hp.
+    + destruct (sub_chars id) as [|c t] eqn:S; [discriminate|]. (* guard_digit [] = [] cannot be n :: l *)
+      cbn [needs_guard] in N. apply orb_false_iff in N as [_ N]. rewrite G, W in N. cbn [andb] in N.
+      rewrite Hsep. cbn [app]. unfold sqlite_reserved, sqlite_word in *.
+      apply (nocase_ext underscore underscore 115 [113; 108; 105; 116; 101] (c :: t) rest); [discriminate| |exact N].
+      vm_compute. reflexivity.
 Qed.
 
 Section WithDigest.
@@ -221,6 +277,12 @@ Section WithDigest.
     rewrite (head_ok_app _ _ P1). cbn [andb]. rewrite !forallb_app, P2. cbn [andb].
     pose proof vocab_ident_ok_true as V. unfold vocab_ident_ok in V. apply andb_true_iff in V as [V1 V2].
     rewrite V1. cbn [andb]. rewrite forallb_forall in V2. specialize (V2 (c, t) Hin). exact V2.
+  Qed.
+
+  Lemma table_name_not_reserved : reserved_rule_present = true ->
+    forall id c t, reserved_name (table_name H id c t) = false.
+  Proof.
+    intros R id c t. unfold table_name, table_prefix, prefix. rewrite <- !app_assoc. apply sanitize_not_reserved, R.
   Qed.
 
   (* ---------------------------------------------------------------- injectivity *)
